@@ -27,7 +27,23 @@ JOB_TIMEOUT = 1500
 
 
 def plan(tier, seed):
-    return F.plan_jobs(tier, seed, "C04", quick_jobs=32, thorough_jobs=600)
+    import random
+    jobs = F.plan_jobs(tier, seed, "C04", quick_jobs=32, thorough_jobs=600)
+    # some stops are crashes of the main process inside a step: right after
+    # the data row(s) of an accepted move were appended and before the
+    # restart file is rewritten, or right after the restart file was written
+    rng = random.Random(f"C04k-{seed}")
+    for job in jobs:
+        for spec in job["specs"]:
+            if rng.random() < 0.35:
+                j = rng.randint(2, 12)
+                point = rng.choice(["after_write_to_pathens",
+                                    "after_write_to_pathens",
+                                    "after_write_toml"])
+                spec["segments"] = [
+                    {"steps": spec["steps"], "kill_in": [point, j]},
+                    {"steps": spec["steps"]}]
+    return jobs
 
 
 def _mons(spec, cdir):
@@ -36,8 +52,8 @@ def _mons(spec, cdir):
     class M(FracMonitor):
         def after_segment(self, rig, i, out):
             import os
-            if out in ("done", "killed") and os.path.isfile(
-                    os.path.join(rig.cdir, "restart.toml")):
+            if out in ("done", "killed") and not rig.kill_in and \
+                    os.path.isfile(os.path.join(rig.cdir, "restart.toml")):
                 self.totals_check(rig, rig.cdir)
                 rig.ev("offline_totals_checked")
     return [M()]
